@@ -109,7 +109,7 @@ def enum_shape(name, trait, attr, default_placeholder, variants, shared, shared_
         }
         let tw = trace_take();
         let (got, tg) = run_fmt!(%(T)s, &s, FormattingOptions::new());
-        assert!(!got.overflow && !want.overflow);
+        assert!(!got.overflow && !want.overflow, "HARNESS: sink too small");
         assert!(got.same(&want), "output differs from the documented enum-level format rule");
         assert!(tg == tw, "fields were formatted differently than the documented rule prescribes");
 %(covers)s    }
